@@ -396,8 +396,13 @@ def check(prog, run):
                 run.report(r, "%s:ChainedVisitor.enter:returns-original" % VIS, en.where(rt),
                            "enter returns %s instead of the threaded value %s: a deletion or replacement made by a chained "
                            "visitor is lost" % (ast.unparse(rt.value) if rt.value else None, thread))
-        stops = any(isinstance(n, ast.If) and thread in ast.unparse(n.test) and "None" in ast.unparse(n.test)
-                    and any(isinstance(b, (ast.Break, ast.Return)) for b in n.body) for n in ast.walk(loop))
+        # decided by executions of the loop body with the threaded value None: no child's enter is evaluated (whatever the form:
+        # `if x is None: break`, `if x is not None: x = v.enter(x) / else: break`, a guard that continues)
+        try:
+            ev_none, _ex = boolx.walk_under(boolx.body_function(loop.body), lambda t: True if t.strip("()") == "%s is None" % thread else None)
+        except ValueError as e:
+            raise AnalysisError("C18.V4: %s" % e)
+        stops = not any(isinstance(n, ast.Call) and isinstance(n.func, ast.Attribute) and n.func.attr == "enter" for n, _env in ev_none.values())
         r.instance("stops at None: %s" % stops)
         if not stops:
             run.report(r, "%s:ChainedVisitor.enter:continues-after-None" % VIS, en.where(loop), "later visitors are entered with None after a deletion")
